@@ -42,11 +42,20 @@ def histories(ctx):
     hs = [list(base), list(reversed(base))]
     h3 = [base[1], base[1], base[0], base[3], base[0]]
     hs.append(h3)
+    # the same country twice with settings that differ only in part (nutrition profile: same kcals, other fat/protein)
+    arg_b = ("ARG", pipeline.options(NMONTHS=48, nutrition="baseline"))
+    hs.append([arg_b, base[0], arg_b])
     for _ in range(ctx.budget(0, 20)):
         h = list(base)
         ctx.rng.shuffle(h)
         hs.append(h[: ctx.rng.randint(2, len(h))] + [ctx.rng.choice(base)])
     return base, hs
+
+
+# the multi-country driver shares ONE options dictionary between the countries of a list; ALB is a country whose
+# scenario the code rewrites (alter_scenario_if_known_to_fail) under this option set
+NOTRADE_OPTS = pipeline.options(NMONTHS=48, scenario="seaweed", shutoff="continued")
+NOTRADE_LISTS = [["ALB", "ARG"], ["ARG"], ["ALB"], ["ARG", "DJI", "ALB"]]
 
 
 def key(r):
@@ -65,6 +74,32 @@ def correspondence(ctx):
                 ctx.break_("fresh-process-run-failed", "rc=%s %s" % (rc, err))
                 continue
             alone[key(batch[0])] = outs[0]
+    # multi-country driver: every country of a list vs the same country run through the driver alone
+    nt_jobs = [[["NOTRADE", NOTRADE_OPTS, lst]] for lst in NOTRADE_LISTS]
+    with ThreadPoolExecutor(max_workers=len(nt_jobs)) as ex:
+        nt_res = list(ex.map(lambda j: run_batch(ctx.repo, j), nt_jobs))
+    nt_alone = {}
+    for lst, (outs, rc, err) in zip(NOTRADE_LISTS, nt_res):
+        if not outs:
+            ctx.break_("no-trade-batch-failed", "rc=%s %s" % (rc, err))
+        if len(lst) == 1:
+            for o in outs:
+                if o["iso"].startswith("NOTRADE:"):
+                    nt_alone[o["iso"]] = o
+    for lst, (outs, rc, err) in zip(NOTRADE_LISTS, nt_res):
+        for o in outs:
+            if o["iso"] == "NOTRADE-AGG" and o["error"]:
+                ctx.count("no-trade-run-error")
+            if len(lst) > 1 and o["iso"] in nt_alone:
+                a = nt_alone[o["iso"]]
+                diff = [f for f in sorted(set(o["fingerprint"]) | set(a["fingerprint"])) if o["fingerprint"].get(f) != a["fingerprint"].get(f)]
+                case = {"driver": "run_model_no_trade", "countries_list": lst, "country": o["iso"][8:], "options": NOTRADE_OPTS}
+                if diff:
+                    ctx.violation("history-dependent-result", "%s run through run_model_no_trade with countries %s differs from the same country run alone in: %s" % (
+                        o["iso"][8:], lst, diff[:6]), dict(case, fields=diff[:20]))
+                ctx.case(("notrade", tuple(lst), o["iso"]), nontrivial=True, sample={"driver": "run_model_no_trade", "countries_list": lst, "country": o["iso"][8:],
+                                                                                      "fields_compared": len(o["fingerprint"])})
+                ctx.count("no-trade-runs-compared-bitwise")
     lines = []
     meta = []
     for (kind, batch), (outs, rc, err) in zip(jobs, results):
